@@ -81,8 +81,15 @@ def water_permittivity(
                         warnings.warn("Outside pressure range (5000 bar)")
     B = U[6] + U[7] / T + U[8] * T
     C = U[3] + U[4] / (U[5] + T)
-    eps1000 = U[0] * be.exp(U[1] * T + U[2] * T ** 2)
-    return eps1000 + C * be.log((B + P) / (B + 1000.0 * bar))
+    exp_arg = U[1] * T + U[2] * T ** 2
+    log_arg = (B + P) / (B + 1000.0 * bar)
+    if units is not None:
+        from ..units import to_unitless
+
+        # pure numbers also when T or P are given in other units than K and bar
+        exp_arg, log_arg = to_unitless(exp_arg), to_unitless(log_arg)
+    eps1000 = U[0] * be.exp(exp_arg)
+    return eps1000 + C * be.log(log_arg)
 
 
 # bibtex format (generated at doi2bib.org):
